@@ -44,9 +44,11 @@ struct DeathVis {
 template<int D> void assign_probes(Rng& g) {
 	std::vector<L> e; for(int d = 0; d < D; ++d) e.push_back(g.in(2, 4)); auto f = e; int const which = int(g.below(D)); f[std::size_t(which)] += g.chance(1, 2) ? 1 : -1;
 	bool const keepcount = D >= 2 && g.chance(1, 3); if(keepcount) { f = e; std::swap(f[0], f[std::size_t(D - 1)]); if(f == e) f[0] += 1; }
-	std::string const mism = keepcount ? "permuted-extents" : (which == 0 ? "leading-extent" : "inner-extent");
+	bool const innerperm = D >= 3 && !keepcount && g.chance(1, 4);  // same leading extent, same element count, inner extents exchanged: only a comparison of ALL extensions notices
+	if(innerperm) { if(e[1] == e[2]) e[2] = e[1] + 1; f = e; std::swap(f[1], f[2]); }
+	std::string const mism = innerperm ? "inner-extents-exchanged" : keepcount ? "permuted-extents" : (which == 0 ? "leading-extent" : "inner-extent");
 	static char const* KN[] = {"named=named", "named=prvalue", "prvalue=prvalue", "named=const", "other-element-type", "array_ref=array_ref", "static_array=array", "elements()=elements()", "swap(views)", "view=array", "view-fill-from-initializer-list", "array_ref=array"};
-	int kind = int(g.below(12)); if(kind == 7 && keepcount) kind = 0;  // flat element ranges of equal length are not a mismatch
+	int kind = int(g.below(12)); if(kind == 7 && (keepcount || innerperm)) kind = 0;  // flat element ranges of equal length are not a mismatch
 	std::string const what = std::string(KN[kind]) + ":" + mism;
 	describe(" assign " + what + " dst=" + join(e, "x") + " src=" + join(f, "x")); sig_mix(what.c_str()); op(("death:assign:" + what).c_str());
 	// generous padding so that a surviving mismatched assignment stays inside the buffers (the verdict must not depend on where ASan's red zones are)
